@@ -12,8 +12,9 @@ RNsQ == {<<3>>, <<2,3>>, <<2,4,3>>}
 TNsT == {<<1>>, <<1,2>>, <<1,4,2>>, <<2>>, <<10>>}
 RNsT == {<<3>>, <<2,3>>, <<2,4,3>>, <<1>>, <<1,2>>}
 
+\* (a relationship VALUE may also carry the empty type name on either end; no schema holds such a type)
 AllRelVals == { [ft |-> a, fn |-> n, to1 |-> c, tt |-> b, tn |-> m, fo1 |-> d] :
-                  a \in TNs, b \in TNs, n \in RNs, m \in RNs \cup {<<>>}, c \in BOOLEAN, d \in BOOLEAN }
+                  a \in TNs \cup {<<>>}, b \in TNs \cup {<<>>}, n \in RNs, m \in RNs \cup {<<>>}, c \in BOOLEAN, d \in BOOLEAN }
 
 LawsOfIntended == \A r \in AllRelVals : InDomain(r) => LawsOK(r, ObsOf(Normalize, r))
 \* sanity of the named deviation: the pinned rule breaks a law somewhere in the universe
